@@ -337,3 +337,108 @@ PROPS = {
                         "SpecFloat operations of Coq's standard library are IEEE-754 binary64 (Flocq's BinarySingleNaN proves this; not re-proved here)"],
     },
 }
+
+
+# ---------------------------------------------------------------------------------------------
+# C12: all entry points are views of one evaluator
+# ---------------------------------------------------------------------------------------------
+TYPES = "vsifnbte"
+TYPE_OF_VALUE = {"S": "s", "I": "i", "F": "f", "B": "b", "T": "t", "E": "e"}
+EXPECTED = {"s": "ExpectedString", "i": "ExpectedInt", "f": "ExpectedFloat", "n": "ExpectedNumber", "b": "ExpectedBoolean",
+            "t": "ExpectedTuple", "e": "ExpectedEmpty"}
+
+
+def project_text(ty, untyped):
+    """what the typed entry point must return, given the untyped outcome text"""
+    if not untyped.startswith("OK "):
+        return untyped
+    v = untyped[3:]
+    if ty == "v":
+        return untyped
+    k = TYPE_OF_VALUE[v[0]]
+    if ty == k:
+        return untyped
+    if ty == "n" and k == "f":
+        return untyped
+    if ty == "n" and k == "i":
+        return "OK F%016x" % f_bits(float(int(v[1:])))
+    return "ERR %s(%s)" % (EXPECTED[ty], v)
+
+
+C12_SETUP = ["init %s I3" % hexs("a"), "init %s F4004000000000000" % hexs("b"), "init %s S%s" % (hexs("c"), hexs("xy")),
+             "init %s B1" % hexs("x"), "init %s T(I1,I2)" % hexs("y"), "init %s E" % hexs("z"),
+             "setfn %s id" % hexs("f"), "setfn %s swap" % hexs("g"), "setfn %s fail:%s" % (hexs("h"), hexs("boom"))]
+C12_STRINGS = ["a = 1; a", "1", "1.5", '"s"', "true", "(1,2)", "()", "", "a", "b", "c", "x", "y", "z", "1 +", ")", "(",
+               "a += 1", "a + b", "f(a)", "g(1,2)", "h(1)", "a = 5", "q = 1; q", "q", "9223372036854775807", "2^62",
+               "1/0", "a; b; c", "a,b", "y == (1,2)", "c + \"z\"", "!x", "-a", "\"", "1e400", "0x10", "a = \"s\"",
+               "f g h 1", "max(1, 2.5)", "min(4.0, 3)", "len(c)", "typeof(z)", "a /* c */ + 1", "1;", ";", ",",
+               "x && false", "a % 2 == 1", "str::from(y)", "math::sqrt(16)", "if(x, a, b)"]
+
+
+def c12_case(kind, setup, src):
+    ops = list(setup)
+    codes = []
+    for lvl in "sn":
+        for mode in "frm":
+            if mode == "m" and kind in ("E", "EB"):
+                continue
+            for ty in TYPES:
+                code = lvl + mode + ty
+                codes.append(code)
+                ops.append("evc %s %s" % (code, hexs(src)))
+    ops.append("evc build %s" % hexs(src))
+    return G.script(kind, ops), {"kind": "all-entries", "src": src, "ctx": kind, "codes": codes, "nsetup": len(setup)}
+
+
+def c12_gen(tier, rng):
+    cases = []
+    srcs = list(C12_STRINGS)
+    n = 400 if tier == "quick" else 6000
+    for _ in range(n):
+        raw = G.rand_seq(rng, 3) if rng.random() < 0.25 else G.rand_expr(rng, rng.randint(1, 4))
+        e = G.parenthesize_seq(raw) if raw[0] in ("tuple", "chain") else G.parenthesize(raw)
+        toks = G.flatten(e)
+        if rng.random() < 0.2 and toks:
+            toks.pop(rng.randrange(len(toks)))  # near miss
+        srcs.append(G.render(toks, rng, "space"))
+    for s in G.char_soup(rng, 100 if tier == "quick" else 1000):
+        srcs.append(s)
+    for s in srcs:
+        kind = rng.choice(["H", "H", "H", "N", "E", "EB"])
+        setup = C12_SETUP if kind in ("H", "N") else []
+        cases.append(c12_case(kind, setup, s))
+    return cases
+
+
+def c12_oracle(case, out, model_out):
+    m = case[1]
+    if m.get("kind") != "all-entries":
+        return None
+    if out.startswith("PANIC"):
+        return "panic: " + out
+    steps = step_outputs(out)[m["nsetup"]:]
+    codes = m["codes"]
+    res = dict(zip(codes, steps))
+    build = steps[len(codes)] if len(steps) > len(codes) else None
+    for code in codes:
+        lvl, mode, ty = code
+        base = res.get("s" + mode + "v")
+        want = project_text(ty, base)
+        if res[code] != want:
+            return "entry point %s on %r in context %s: returned %s, the projection of the untyped result %s is %s" % (code, m["src"], m["ctx"], res[code], base, want)
+    if build is not None and build.startswith("ERR"):
+        for code in codes:
+            if res[code] != build:
+                return "build_operator_tree fails with %s but entry point %s returns %s on %r" % (build, code, res[code], m["src"])
+    # context-free forms = mutable forms on a fresh empty HashMapContext
+    return None
+
+
+PROPS["C12"] = {
+    "gen": c12_gen, "oracle": c12_oracle, "release": False, "model_env": {"EVX_WRAPPERS": "1"},
+    "rule": "every case runs all 48 evaluation entry points (2 levels x 3 context modes x 8 result types; the mutable ones only on contexts that implement ContextWithMutableVariables) plus build_operator_tree on clones of one context; sources: fixed distinguishing strings, generated programs, near misses (one token deleted), character soup; contexts: populated HashMapContext, NoStore, EmptyContext, EmptyContextWithBuiltinFunctions; the model side runs the wrappers TRANSLATED from the source; non-trivial = at least one entry point returns a value",
+    "nontrivial": lambda c, out: " OK " in out or out.startswith("OK "),
+    "assumptions": ["translator tools/translate_interface.py (syntactic translation of the 49 wrapper bodies; refuses unknown shapes)",
+                    "the interpreter of translated wrappers (Model/InterfaceGen.v) reads a wrapper body the way Rust executes it",
+                    "the two evaluators eval_ro / eval_mut of the model equal the Rust ones: correspondence of this run"],
+}
